@@ -71,6 +71,12 @@ def _recv_start(m, dot):
             k = j
             while k >= 0 and (m[k].isalnum() or m[k] == '_'):
                 k -= 1
+            if m[k + 1:j + 1] in ('match', 'if', 'while', 'return', 'in', 'let', 'else', 'break', 'mut', 'move', 'unsafe', 'loop', 'for'):
+                # a keyword is not part of the operand (`match (..)? {`, `return x?`): the expression starts behind it
+                e = j + 1
+                while e < len(m) and m[e].isspace():
+                    e += 1
+                return e
             i = k + 1
             # path separator or field access before?
             j2 = i - 1
